@@ -6,6 +6,7 @@
 package block
 
 import (
+	"errors"
 	"io"
 
 	"github.com/ethereum/go-ethereum/rlp"
@@ -37,6 +38,9 @@ func (trf *txsRootFeatures) DecodeRLP(s *rlp.Stream) error {
 		var obj _txsRootFeatures
 		if err := s.Decode(&obj); err != nil {
 			return err
+		}
+		if obj.Features == 0 {
+			return errors.New("rlp: txsRootFeatures must be trimmed")
 		}
 		*trf = txsRootFeatures(obj)
 	} else {
